@@ -35,11 +35,11 @@ func staleExits(p *Prog, entry *ssa.Function, owner string) []*ssa.BasicBlock {
 			}
 			l, r := s.Args[0].Strip(), s.Args[1].Strip()
 			opName := s.Name
-			if r.IsField(owner, "lastGameStateTime") && l.Kind == "field" && l.Name == "UpdatedAt" {
+			if isViewTimeCell(r, entry, owner) && l.Kind == "field" && l.Name == "UpdatedAt" {
 				l, r = r, l
 				opName = map[string]string{"<": ">", ">": "<", "<=": ">=", ">=": "<="}[opName]
 			}
-			if !(l.IsField(owner, "lastGameStateTime") && r.Kind == "field" && r.Name == "UpdatedAt") {
+			if !(isViewTimeCell(l, entry, owner) && r.Kind == "field" && r.Name == "UpdatedAt") {
 				continue
 			}
 			switch opName {
@@ -138,4 +138,26 @@ func checkRunnerTimer(c *Ctx, rule string, runner *types.Named, entry *ssa.Funct
 	}
 	c.Check(bad == "", rule, "runner-timer:stale-view-inert", p.Pos(entry.Pos()), "no time-bank operation on a path into the stale exit",
 		"a view discarded as stale still disturbs the pending move: "+bad)
+}
+
+// isViewTimeCell: the place where a runner remembers the time of the last view it handled — the runner's
+// own state-time field, or (when that bookkeeping was moved into a helper type) an integer field reached
+// from the runner's receiver through fields only. The rules that use it tie it to its role: it is the cell
+// compared with the view's UpdatedAt and overwritten from it.
+func isViewTimeCell(s *Sym, entry *ssa.Function, owner string) bool {
+	s = s.Strip()
+	if s.IsField(owner, "lastGameStateTime") {
+		return true
+	}
+	if s.Kind != "field" || s.V == nil || (typeShort(s.V.Type()) != "int64" && typeShort(s.V.Type()) != "*int64") || len(entry.Params) == 0 {
+		return false
+	}
+	x := s
+	for x != nil && x.Kind == "field" {
+		if len(x.Args) == 0 {
+			return false
+		}
+		x = x.Args[0].Strip()
+	}
+	return x != nil && symIsParam(x, entry.Params[0]) && s.Name != "UpdatedAt"
 }
